@@ -132,8 +132,18 @@ var threadCancel bool // with mainContext: the thread keeps its derived child co
 var bare bool         // the program's entry is the first call ever made on the state
 var bgFirst bool      // the state starts under context.Background(); the program's reattach() attaches the simulated one
 
+// preRaiseAt > 0: every run of the program (with and without context, fired or not) gets a run-time error injected
+// at that instruction index first; the cancellation then arrives while or after that error is being handled
+var preRaiseAt int64
+
 func exec(proto *lua.FunctionProto, o lua.Options, withCtx bool, kind int, at int64, maxSteps int64) *vmRun {
+	kind2, at2 := 0, int64(0)
+	if preRaiseAt > 0 {
+		kind2, at2 = kind, at
+		kind, at = hostapi.VRaise, preRaiseAt
+	}
 	h := hostapi.NewHost(hostapi.Options{LuaOptions: o, Kind: kind, At: at, MaxSteps: maxSteps, WithContext: withCtx, OnThread: onThread, MainContext: mainContext, Bare: bare, BackgroundFirst: bgFirst, ThreadCancelFunc: threadCancel})
+	h.Kind2, h.At2 = kind2, at2
 	if !bare {
 		// math and channel are needed by some templates
 		h.L.Push(h.L.NewFunction(lua.OpenMath))
@@ -245,6 +255,12 @@ func (e *Engine) Run(t *core.Tape, cfg *core.Config, st *core.Stats) *core.Viola
 	if !terminating {
 		budget = int64(1500 + t.Choose(3000))
 	}
+	preRaiseAt = 0
+	if !bgFirst && t.Choose(4) == 0 {
+		preRaiseAt = int64(1 + t.Choose(300))
+		name += fmt.Sprintf("+raise@%d", preRaiseAt)
+		st.Probe("cancellation_after_an_injected_error")
+	}
 	// run 0: context attached, never fires
 	r0 := exec(proto, o, true, hostapi.VNone, 0, budget)
 	st.Evals++
@@ -255,6 +271,9 @@ func (e *Engine) Run(t *core.Tape, cfg *core.Config, st *core.Stats) *core.Viola
 	if terminating && r0.h.Runaway {
 		st.Discarded++
 		return nil
+	}
+	if !terminating && !r0.h.Runaway && preRaiseAt > 0 {
+		terminating = true // the injected error ended the program
 	}
 	if !terminating && !r0.h.Runaway {
 		return core.Violationf("harness", "template %s terminated (outcome %q); it is meant to run forever\n%s", name, r0.out.RawError, desc())
@@ -267,14 +286,14 @@ func (e *Engine) Run(t *core.Tape, cfg *core.Config, st *core.Stats) *core.Viola
 		return core.Violationf("context-changes-behaviour", "attaching a context that is never done changed the run: without context %d steps, %d emits, error %q; with context %d steps, %d emits, error %q\nwithout:\n  %s\nwith:\n  %s\n%s",
 			rn.h.Steps, len(rn.h.Trace), rn.out.TopError, r0.h.Steps, len(r0.h.Trace), r0.out.TopError, showTrace(rn.h.Trace), showTrace(r0.h.Trace), desc())
 	}
-	if terminating && !scenario {
+	if terminating && !scenario && preRaiseAt == 0 {
 		free := model.Run(prog, model.Options{MaxSteps: 400000})
 		if !free.Runaway && model.HashTrace(r0.h.Trace, r0.out.TopError) != free.TraceHash {
 			return core.Violationf("trace-mismatch", "run with an undone context differs from the reference model\nimplementation:\n  %s\nmodel:\n  %s\n%s", showTrace(r0.h.Trace), showTrace(free.Trace), desc())
 		}
 	}
 	S := r0.h.Steps
-	if i := strings.Index(src, "MINSTEPS "); i >= 0 {
+	if i := strings.Index(src, "MINSTEPS "); i >= 0 && preRaiseAt == 0 {
 		var min int64
 		fmt.Sscan(src[i+len("MINSTEPS "):], &min)
 		if S < min {
@@ -293,16 +312,22 @@ func (e *Engine) Run(t *core.Tape, cfg *core.Config, st *core.Stats) *core.Viola
 		if bgFirst && k <= r0.h.ReattachStep+1 {
 			return nil // the simulated context is not attached yet (the state still runs under context.Background())
 		}
+		if preRaiseAt > 0 && k <= preRaiseAt {
+			return nil // cancellations before the error are what the variant without it covers
+		}
 		// after the fire the run may make at most 2*(D+1) more loop iterations; give it a generous but finite cap
 		r := exec(proto, o, true, hostapi.VCancel, k, k+int64(2*(300+1))+64)
 		st.Evals++
 		st.Steps += r.h.Steps
 		st.D(model.HashTrace(r.h.Trace, r.out.TopError) ^ uint64(r.h.StepsAfter))
-		if !r.h.Fired {
+		if !r.h.Fired || preRaiseAt > 0 && !r.h.Fired2 {
 			return nil
 		}
 		fired++
 		st.Fault("cancel@k")
+		if preRaiseAt > 0 {
+			st.Fault("raise@k1+cancel@k")
+		}
 		where := fmt.Sprintf("context fired at global step %d of %d (frame depth over the resume chain at that instant: %d)", k, S, r.h.FiredDepth)
 		if r.h.FiredDepth > 1 {
 			st.Probe("cancel_at_depth>1")
